@@ -118,6 +118,16 @@ def r2_mapping_choices_total(ctx: Ctx) -> None:
     okv = stv is not None and isinstance(stv, ast.Subscript) and unparse(stv.slice) == sm.params()[1] and \
         (stv.value is d[0] or unparse(stv.value) in local_tables or unparse(stv.value) == tname or unparse(stv.value) == unparse(d[0]))
     ctx.check(okv, "set_mapping:assigns-rom-type", "plain subscript of the name table by the option value (an unknown name raises)")
+    if len(st) == 1:
+        gsm = CFG(sm.node)
+        conds = gsm.path_conditions(gsm.node_of(st[0]))
+        pname = sm.params()[1]
+        wrong = [(t, p_) for t, p_ in conds if (t == f"{pname} is None" and p_) or (t == pname and not p_)]
+        ctx.check(not wrong, "set_mapping:when-given", f"the mapping is applied when one was given (`{pname} is not None`), not when it is absent; conditions {sorted(conds)}")
+    asp = ctx.repo.func(PROGRAM, "Program.assemble_as_patch")
+    dflt = {a.arg: d for a, d in zip(asp.node.args.args[-len(asp.node.args.defaults):], asp.node.args.defaults)} if asp.node.args.defaults else {}
+    if "copier_header" in dflt:
+        ctx.check(unparse(dflt["copier_header"]) == "False", "assemble_as_patch:copier_header-default", "without the option no copier header is assumed (offsets are not shifted)")
     cli = ctx.repo.func(CLI, "cli_main")
     m = _dests(cli.node)["mapping"]
     ctx.check(const_str(kwarg(m, "default")) in table, "cli_main:-m default", "the default mapping name is a known one")
